@@ -27,15 +27,22 @@ _NS = None
 LOOP = ['unroll_for', 'split', 'unroll_while']
 ROUNDING = ['unfold_special', 'unfold_overflow', 'unfold_neg_zero', 'float_to_fixed', 'rescale_fixed']
 AIMABLE = LOOP + ['inline'] + ROUNDING
+RULES = ['rw_fma', 'rw_sum', 'rw_dbl']     # user rewrite rules (fpy2.rewrite.Rewrite), aimed like strategies
 OPAQUE = ['simplify', 'elim_iter', 'fuse', 'elim_round', 'lift_context', 'close']
 
 
 def ns():
     global _NS
     if _NS is None:
-        import runpy
-        _NS = runpy.run_path(WL, run_name='c19wl')
+        import importlib
+        _NS = importlib.import_module('workloads.c19_roots').__dict__
     return _NS
+
+
+def new_rule(name: str):
+    from fpy2.rewrite import Rewrite
+    lhs, rhs = ns()['rules']()[name[3:]]
+    return Rewrite(lhs, rhs, name=name)
 
 
 # --------------------------------------------------------------------------
@@ -84,6 +91,15 @@ def cursor_pos(c):
     raise TypeError(c)
 
 
+def site_stmt_paths(c) -> list:
+    """The statement paths a site cursor names: one statement, the statements of a region, or the
+    statement holding an expression."""
+    pos = cursor_pos(c)
+    if pos[0] == 'region':
+        return [pos[1] + (i,) for i in range(pos[2], pos[3])]
+    return [pos[1]]
+
+
 def beneath_or_at(p: tuple, anc: tuple) -> bool:
     return p[:len(anc)] == anc
 
@@ -91,7 +107,9 @@ def beneath_or_at(p: tuple, anc: tuple) -> bool:
 # --------------------------------------------------------------------------
 # strategies
 
-def strategy_call(name: str, f, where, params: dict):
+def strategy_call(name: str, f, where, params: dict, rule=None):
+    if name in RULES:
+        return (rule or new_rule(name)).apply(f, where, repeat=params.get('repeat', 1))
     from fpy2 import strategies as S
     from fpy2.transform import ForUnrollStrategy, SplitLoopStrategy
     fn = getattr(S, name)
@@ -123,6 +141,10 @@ def listing_kwargs(name: str, params: dict) -> dict:
 
 
 def list_sites(name: str, f, params: dict, within=None):
+    if name in RULES:
+        from fpy2.rewrite import find_all
+        lhs, _ = ns()['rules']()[name[3:]]
+        return find_all(lhs, f, within), []
     from fpy2 import strategies as S
     kw = listing_kwargs(name, params)
     try:
@@ -143,6 +165,8 @@ def gen_params(r: random.Random, name: str) -> dict:
         return {'recursive': r.random() < 0.7}
     if name == 'unfold_overflow':
         return {'early_check': r.random() < 0.5}
+    if name in RULES:
+        return {'repeat': r.choice([1, 1, 2])}
     return {}
 
 
@@ -164,7 +188,7 @@ def applicable(root: str) -> list[str]:
     if root not in _APPLICABLE:
         f = ns()[root]
         out = []
-        for name in AIMABLE:
+        for name in AIMABLE + RULES:
             try:
                 s, _ = list_sites(name, f, {})
                 if s:
@@ -214,7 +238,7 @@ def gen_history(seed: int, tier: str) -> dict:
         elif x < 0.92:
             ops.append({'op': 'forward', 'cursor': r.randrange(64), 'node': r.randrange(64)})
         else:
-            ops.append({'op': 'list', 'node': r.randrange(64), 'strategy': r.choice(AIMABLE), 'params': {},
+            ops.append({'op': 'list', 'node': r.randrange(64), 'strategy': r.choice(strategies or AIMABLE), 'params': {},
                         'within': r.choice([None, r.randrange(64)])})
     return {'seed': seed, 'root': root, 'other': other, 'ops': ops}
 
@@ -230,6 +254,7 @@ class World:
         self.nodes = [{'fn': n[hist['root']], 'parent': None, 'al': None, 'reported': True, 'via': 'root'}]
         self.other = n[hist['other']]
         self.cursors = []
+        self.rules = {name: new_rule(name) for name in RULES}   # reused across the ops of this history
         self.vios: list[dict] = []
         self.stats = core.Stats()
         self.trace: list = []
@@ -454,7 +479,8 @@ class World:
         self.stats.count('ops', f'apply:{wk}')
         self.stats.add('distinct', f'{name}|{wk}|k={min(k, 3)}|{self.hist["root"]}')
         before_fp = M.fingerprint(f.ast)
-        site_paths = [cursor_pos(c)[1] for c in sites]
+        site_targets = [site_stmt_paths(c) for c in sites]      # the statements each site names
+        site_paths = [t[0] for t in site_targets]
         allowed = None
         must_change = []
         where = None
@@ -465,12 +491,14 @@ class World:
             else:
                 j = op['where'][1] % k
                 where = j
-                allowed = [site_paths[j]]
-                must_change = [site_paths[j]]
+                allowed = list(site_targets[j])
+                must_change = [site_targets[j]]
         elif wk == 'none':
             where = None
-            allowed = list(site_paths)
-            must_change = [p for p in site_paths if not any(q != p and beneath_or_at(p, q) for q in site_paths)]
+            allowed = [p for t in site_targets for p in t]
+            must_change = [t for t in site_targets if not any(q != t[0] and beneath_or_at(t[0], q) for q in site_paths)]
+            if name == 'rw_sum':
+                must_change = []     # overlapping windows decline instead
         elif wk == 'bad':
             v = op['where'][1]
             where = {-1: -1, 0: k, 7: k + 7, 1000: 1000 + k}[v]
@@ -483,7 +511,7 @@ class World:
                 return
             expect_raise = 'foreign-cursor'
         elif wk == 'wrongkind':
-            if name == 'inline' or not self.cursors:
+            if name in ('inline', 'rw_fma', 'rw_dbl') or not self.cursors:
                 return
             exprs = [c for c in self.cursors if c['kind'] == 'expr' and self.canon(c['node']) == self.canon(ni)]
             if not exprs:
@@ -494,7 +522,7 @@ class World:
             if not self.cursors:
                 return
             rec = self.cursors[op['where'][1] % len(self.cursors)]
-            if rec['kind'] == 'expr' and name != 'inline':
+            if rec['kind'] == 'expr' and name not in ('inline', 'rw_fma', 'rw_dbl'):
                 return
             where = rec['cursor']
             model = self.model_image(rec, ni)
@@ -511,7 +539,7 @@ class World:
                 if not allowed:
                     allowed = None   # model lost track: only the generic checks apply
         try:
-            g = strategy_call(name, f, where, params)
+            g = strategy_call(name, f, where, params, self.rules.get(name))
             raised = None
         except TransformError as e:
             g, raised = None, e
@@ -543,14 +571,25 @@ class World:
                     self.vio('rewrite-outside-named-site', {'changed': repr(p), 'named': repr(allowed)[:200], 'class': repr(al.stmt[p])[:120],
                                                            'old': _fmt(M.resolve(f.ast, p))}, strategy=name, where_kind=wk)
                     break
-        for p in must_change:
-            c = al.stmt.get(p)
-            if c is not None and c[0] == 'same':
-                self.vio('listed-site-not-rewritten', {'site': repr(p), 'k': k}, strategy=name, where_kind=wk)
+        for tgt in must_change:
+            cs = [al.stmt.get(p) for p in tgt]
+            if cs and all(c is not None and c[0] == 'same' for c in cs):
+                self.vio('listed-site-not-rewritten', {'site': repr(tgt), 'k': k}, strategy=name, where_kind=wk)
                 break
+        # a rule object reused across applications answers as a freshly made one does
+        if name in RULES:
+            try:
+                g2 = strategy_call(name, f, where, params, None)
+                if M.fingerprint(g2.ast) != M.fingerprint(g.ast):
+                    self.vio('reused-rule-differs-from-fresh-rule', {'where': repr(where)[:80]}, strategy=name, where_kind=wk)
+                elif (g.edits.edits, g.edits.exprs_rewritten) != (g2.edits.edits, g2.edits.exprs_rewritten):
+                    self.vio('reused-rule-differs-from-fresh-rule', {'what': 'edit log', 'reused': repr(g.edits.edits)[:200],
+                                                                   'fresh': repr(g2.edits.edits)[:200]}, strategy=name, where_kind=wk)
+            except Exception as e:
+                self.vio('reused-rule-differs-from-fresh-rule', {'fresh-raised': f'{type(e).__name__}: {e}'[:200]}, strategy=name, where_kind=wk)
         # "...and only it": a listed site nested inside the aimed one is carried along intact, so
         # wherever it reappears its own statements reappear exactly as often as it does
-        if wk == 'idx' and name != 'inline':
+        if wk == 'idx' and name != 'inline' and name not in RULES:
             tgt = site_paths[where]
             fo = _fp_counts(f.ast)
             fg = _fp_counts(g.ast)
@@ -676,7 +715,7 @@ class World:
         # `within` narrows the listing to what lies at or beneath it
         if op.get('within') is not None and self.cursors:
             rec = self.cursors[op['within'] % len(self.cursors)]
-            if rec['kind'] == 'expr' and name != 'inline':
+            if rec['kind'] == 'expr' and name not in ('inline', 'rw_fma', 'rw_dbl'):
                 return
             model = self.model_image(rec, ni)
             try:
